@@ -401,68 +401,87 @@ def intFromArg : GoArg → Option Int
   | .u64 u => if u > 1000000 then none else some (u : Int)
   | _ => none
 
+/-- result of the width stage of `doPrintf`: text emitted (`%!(BADWIDTH)`), flags, width, remaining format and arguments,
+and whether a literal was too large -/
+structure WidthRes where
+  pre : Bytes
+  fl : Flags
+  wid : Option Nat
+  rest : Bytes
+  args : List GoArg
+  bad : Bool
+
+/-- "Do we have width?" -/
+def goParseWidth (fl : Flags) (r1 : Bytes) (args : List GoArg) : WidthRes :=
+  match r1 with
+  | 42 :: r =>
+    match args with
+    | [] => ⟨badWidth, fl, none, r, [], false⟩
+    | a :: as =>
+      match intFromArg a with
+      | none => ⟨badWidth, fl, none, r, as, false⟩
+      | some v =>
+        if v < 0 then ⟨[], { fl with minus := true, zero := false }, some v.natAbs, r, as, false⟩
+        else ⟨[], fl, some v.toNat, r, as, false⟩
+  | _ =>
+    let ds := r1.takeWhile isDigit
+    if ds.isEmpty then ⟨[], fl, none, r1, args, false⟩
+    else ⟨[], fl, some (numVal ds), r1.dropWhile isDigit, args, litTooLarge ds⟩
+
+structure PrecRes where
+  pre : Bytes
+  prec : Option Nat
+  rest : Bytes
+  args : List GoArg
+  bad : Bool
+
+/-- "Do we have precision?" -/
+def goParsePrec (r2 : Bytes) (args1 : List GoArg) : PrecRes :=
+  match r2 with
+  | 46 :: r =>
+    if r.isEmpty then ⟨[], none, r2, args1, false⟩
+    else match r with
+      | 42 :: r' =>
+        match args1 with
+        | [] => ⟨badPrec, none, r', [], false⟩
+        | a :: as =>
+          match intFromArg a with
+          | none => ⟨badPrec, none, r', as, false⟩
+          | some v => if v < 0 then ⟨badPrec, none, r', as, false⟩ else ⟨[], some v.toNat, r', as, false⟩
+      | _ =>
+        let ds := r.takeWhile isDigit
+        ⟨[], some (numVal ds), r.dropWhile isDigit, args1, litTooLarge ds⟩
+  | _ => ⟨[], none, r2, args1, false⟩
+
+/-- prepend text to a successful result -/
+def Res.prepend (pre : Bytes) : Res → Res
+  | .ok b => .ok (pre ++ b)
+  | r => r
+
 /-- `doPrintf` on the rewritten format -/
 def goPrintfAux (dg : DigitGen) : Nat → Bytes → List GoArg → Res
   | 0, _, _ => .ok []
   | _, [], [] => .ok []
   | _, [], _ :: _ => .unmodelled "EXTRA"
   | fuel + 1, c :: rest, args =>
-    let cont (pre : Bytes) (rest : Bytes) (args : List GoArg) : Res :=
-      match goPrintfAux dg fuel rest args with
-      | .ok b => .ok (pre ++ b)
-      | r => r
-    if c ≠ 37 then cont [c] rest args
+    if c ≠ 37 then (goPrintfAux dg fuel rest args).prepend [c]
     else
-      let flagCs := rest.takeWhile isGoFlag
-      let fl := goFlags flagCs
-      let r1 := rest.dropWhile isGoFlag
-      -- width
-      let (pre1, fl, wid, r2, args1, bad1) : Bytes × Flags × Option Nat × Bytes × List GoArg × Bool :=
-        match r1 with
-        | 42 :: r =>
-          match args with
-          | [] => (badWidth, fl, none, r, [], false)
-          | a :: as =>
-            match intFromArg a with
-            | none => (badWidth, fl, none, r, as, false)
-            | some v =>
-              if v < 0 then ([], { fl with minus := true, zero := false }, some v.natAbs, r, as, false)
-              else ([], fl, some v.toNat, r, as, false)
-        | _ =>
-          let ds := r1.takeWhile isDigit
-          if ds.isEmpty then ([], fl, none, r1, args, false)
-          else ([], fl, some (numVal ds), r1.dropWhile isDigit, args, litTooLarge ds)
-      if bad1 then .unmodelled "NOVERB (width literal too large)" else
-      -- precision
-      let (pre2, prec, r3, args2, bad2) : Bytes × Option Nat × Bytes × List GoArg × Bool :=
-        match r2 with
-        | 46 :: r =>
-          if r.isEmpty then ([], none, r2, args1, false)
-          else match r with
-            | 42 :: r' =>
-              match args1 with
-              | [] => (badPrec, none, r', [], false)
-              | a :: as =>
-                match intFromArg a with
-                | none => (badPrec, none, r', as, false)
-                | some v => if v < 0 then (badPrec, none, r', as, false) else ([], some v.toNat, r', as, false)
-            | _ =>
-              let ds := r.takeWhile isDigit
-              ([], some (numVal ds), r.dropWhile isDigit, args1, litTooLarge ds)
-        | _ => ([], none, r2, args1, false)
-      if bad2 then .unmodelled "NOVERB (precision literal too large)" else
-      match r3 with
+      let w := goParseWidth (goFlags (rest.takeWhile isGoFlag)) (rest.dropWhile isGoFlag) args
+      if w.bad then .unmodelled "NOVERB (width literal too large)" else
+      let p := goParsePrec w.rest w.args
+      if p.bad then .unmodelled "NOVERB (precision literal too large)" else
+      match p.rest with
       | [] => .unmodelled "NOVERB"
       | verb :: r4 =>
-        if verb = 37 then cont (pre1 ++ pre2 ++ [37]) r4 args2
+        if verb = 37 then (goPrintfAux dg fuel r4 p.args).prepend (w.pre ++ p.pre ++ [37])
         else if verb ≥ 128 then .unmodelled "non-ASCII verb"
         else
-          match args2 with
+          match p.args with
           | [] => .unmodelled "MISSING"
           | a :: as =>
-            match goFormat dg ⟨fl, wid, prec, verb⟩ a with
+            match goFormat dg ⟨w.fl, w.wid, p.prec, verb⟩ a with
             | none => .unmodelled "bad verb for argument type"
-            | some b => cont (pre1 ++ pre2 ++ b) r4 as
+            | some b => (goPrintfAux dg fuel r4 as).prepend (w.pre ++ p.pre ++ b)
 
 def goPrintf (dg : DigitGen) (fmt : Bytes) (args : List GoArg) : Res := goPrintfAux dg (fmt.length + 1) fmt args
 
